@@ -28,6 +28,8 @@ CLASSES = {
 
 def get_class(name):
     import importlib
+    if name.startswith('Stateful'):
+        return getattr(importlib.import_module('vlib.vstate'), name), 'Persistent' in name
     mod, pers = CLASSES[name]
     return getattr(importlib.import_module(mod), name), pers
 
@@ -158,6 +160,11 @@ def lifecycle(spec, log):
         point = None
         if spec.get('expect_point'):
             point = wait_point(d, w, log, spec.get('point_timeout', 15))
+        if spec.get('state_probe'):
+            # parent's view while the child is provably alive (parked at the landing point) / just created
+            log.ev('state_alive', value=enc(w.user_state), alive=w.is_alive(), at_point=(point is not None))
+            r = bounded('set_user_state', lambda: setattr(w, 'user_state', 12345), 10)
+            log.ev('state_set_from_parent', rejected=(isinstance(r, Raised) and isinstance(r.exc, RuntimeError)), detail=repr(getattr(r, 'exc', r))[:100])
         act = spec.get('action')
         if act and act.get('settle'):
             time.sleep(act['settle'])
@@ -185,6 +192,11 @@ def lifecycle(spec, log):
         dead = bounded('wait', lambda: w.wait(spec.get('wait_timeout', 20)), spec.get('wait_timeout', 20) + 30)
         log.ev('death', dead=(dead is True), pid_running=(pid_running(wid[1]) if wid[1] != os.getpid() else None))
         obs = []
+        if dead is True and spec.get('state_probe'):
+            # read user_state FIRST (before any other accessor could synchronise it as a side effect)
+            log.ev('state_first', value=enc(w.user_state))
+            r = bounded('set_user_state_dead', lambda: setattr(w, 'user_state', 12345), 10)
+            log.ev('state_set_from_parent_dead', rejected=(isinstance(r, Raised) and isinstance(r.exc, RuntimeError)), detail=repr(getattr(r, 'exc', r))[:100])
         if dead is True:
             obs.append(observe(w, bounded, 'o1'))
             time.sleep(0.05)
@@ -241,6 +253,29 @@ def lifecycle(spec, log):
             r = bounded('next_result_after_end', lambda: w.next_result(), 20)
             is_empty = isinstance(r, Raised) and isinstance(r.exc, queue.Empty)
             log.ev('after_end', empty=is_empty, hang=(r is HANG), other=(None if is_empty or r is HANG else repr(getattr(r, 'exc', r))[:100]))
+        for hop in range(spec.get('chain', 0)):
+            if persistent:
+                r = bounded('restart', lambda: w.restart(timeout=5), 60)
+                if r is HANG or isinstance(r, Raised):
+                    break
+                log.ev('restarted', hop=hop, parent_state=enc(w.user_state), id=list(w.id), alive=w.is_alive())
+                nxt = subst(spec['chain_inputs'][hop], markdir)
+                bounded('enqueue', lambda: w.enqueue(*nxt), 20)
+                r = bounded('next_result', lambda: w.next_result(), 30)
+                log.ev('incarnation_first_result', hop=hop, value=_raw(r) if not isinstance(r, Raised) and r is not HANG else repr(getattr(r, 'exc', 'HANG')))
+                bounded('wait', lambda: w.wait(20), 50)
+                log.ev('state_after_hop', hop=hop, value=enc(w.user_state))
+            else:
+                prev = w
+                nxt = subst(spec['chain_inputs'][hop], markdir)
+                kw2 = dict(kw, args=nxt, init_state=prev.user_state)
+                w = bounded('recreate', lambda: cls(target, **kw2), 60)
+                if w is HANG or isinstance(w, Raised):
+                    break
+                bounded('wait', lambda: w.wait(20), 50)
+                log.ev('state_after_hop', hop=hop, value=enc(w.user_state))
+                r = w.result
+                log.ev('incarnation_first_result', hop=hop, value=_raw(r))
         marks = {}
         for f in sorted(os.listdir(markdir)):
             with open(os.path.join(markdir, f)) as fh:
